@@ -39,3 +39,15 @@ func verifBarrierKey(m msgstream.TsMsg) int64 {
 	}
 	return -1
 }
+
+// VerifChannelTable returns a copy of the manager's channel assignment table
+// (see util.ChannelMapping.VerifTable); nil table if m is not a replicateChannelManager.
+func VerifChannelTable(m interface{}) (table map[string]string, sourceIsKey bool, sourceCnt, targetCnt int) {
+	r, ok := m.(*replicateChannelManager)
+	if !ok {
+		return nil, false, 0, 0
+	}
+	r.channelLock.RLock()
+	defer r.channelLock.RUnlock()
+	return r.channelMapping.VerifTable()
+}
